@@ -16,7 +16,7 @@ from vlib import rawgraph, topogen
 PROPERTY = 'C10'
 LEVEL = 'exploration'
 SHARDS = {'quick': 4, 'thorough': 16}
-TIME_BUDGET = {'quick': 100, 'thorough': 1300}
+TIME_BUDGET = {'quick': 400, 'thorough': 1500}     # safety net only: the workload is fixed, not time-boxed
 EXHAUSTIVE = {'thorough': True}
 
 TYPES = list(R.PIN_SERVICE)
@@ -793,7 +793,7 @@ def buckets_of(desc):
     return out
 
 
-def quick_plan(seed, per_bucket=2, fill=350):
+def quick_plan(seed, per_bucket=2, fill=300):
     order = list(range(S_TOTAL))
     random.Random(f'C10/plan/{seed}').shuffle(order)
     have, plan, rest = {}, [], []
@@ -802,7 +802,8 @@ def quick_plan(seed, per_bucket=2, fill=350):
         if d is None:
             continue
         bs = buckets_of(d)
-        if any(have.get(b, 0) < per_bucket for b in bs):
+        # clause strata are filled per_bucket times, the shape / kind / property strata once
+        if any(have.get(b, 0) < (1 if b.split(':')[1] in ('shape', 'kind', 'prop', 'guardrailed') else per_bucket) for b in bs):
             for b in bs:
                 have[b] = have.get(b, 0) + 1
             plan.append(idx)
@@ -861,11 +862,13 @@ def run(ctx):
         ctx.mark_inconclusive(f'shard {sh}: time budget reached after {done} of {len(mine)} points of the service product')
     # ---- random multi-service mixes
     rng = ctx.subrng('mix')
-    for i in range(ctx.pick(40, 1500)):
+    for i in range(ctx.pick(10, 1500)):
         if ctx.out_of_time():
             break
         run_case(ctx, imp, r_desc(rng), f'R/{ctx.seed}/{sh}/{i}')
     imp.delete_all_graphs()
+    import time
+    ctx.info['cpu_seconds_all_shards'] = round(time.process_time(), 1)
 
 
 def replay(ctx, case):
